@@ -3,6 +3,7 @@ package c06
 import (
 	"fmt"
 	"regexp"
+	"strings"
 
 	"pgregory.net/rapid"
 
@@ -17,6 +18,7 @@ type exclusions struct {
 	tmplRoot     bool // C06-template-root-evaluated-twice: v-if on scoped variables when a component has a <template> root
 	shortNested  bool // C06-shorthand-tag-in-slot-content-not-resolved: shorthand tag inside content supplied to a shorthand tag
 	layoutDirect bool // C06-layout-file-slot-props-not-bound: scoped hand-over content for a <slot> of the layout file
+	compScope    bool // C06-slot-content-sees-component-scope: supplied content reading a name the component binds too
 	layoutLeak   bool // C06-layout-leaks-instance-slot-content: layout instance lacking a name the page supplies somewhere
 }
 
@@ -60,9 +62,15 @@ type builder struct {
 	// component's output is evaluated the second time, i.e. page data and page loop variables.
 	pageIfOnly bool
 	dropped    int // v-if candidates removed by pageIfOnly
-	ids        int
-	lits       int
-	vars       int
+	// collide: supplied content also reads includer variables whose names the component binds itself
+	// (props, front-matter keys, loop index, slot props that were not asked for), and names only the
+	// component binds (expected to be undefined in the content).
+	collide bool
+	// single: shorthand component tags are single words (<kone>) instead of dashed (<k-one>)
+	single bool
+	ids    int
+	lits   int
+	vars   int
 }
 
 func (b *builder) id(p string) string    { b.ids++; return fmt.Sprintf("%s%d", p, b.ids) }
@@ -239,6 +247,9 @@ type compInfo struct {
 	// innerOpen (nested component only): slot names of the component it includes that its own include
 	// tag leaves unsupplied
 	innerOpen []string
+	// extra (nested component only): additional static props it is given, named like names the
+	// component it includes binds itself
+	extra []string
 }
 
 func (ci compInfo) title() string { return fmt.Sprintf("title%d", ci.idx) }
@@ -390,6 +401,24 @@ type incOpts struct {
 	hook func(pl supplyPlan, scope []sv) []Node
 	// noBare: no text directly at the top level of the supplied content
 	noBare bool
+	// coll: includer variables (strings) whose names collide with names bound inside components
+	coll []sv
+	// noCollide switches the collision reads off for this include
+	noCollide bool
+	// boundExtra: names bound in the includer's scope although they are not in scope (destructured
+	// by the template this include tag is written in)
+	boundExtra []string
+	// tainted: slot prop names of an enclosing UNSCOPED supply (see skip in include)
+	tainted []string
+}
+
+func hasVar(l []sv, name string) bool {
+	for _, e := range l {
+		if e.x == name {
+			return true
+		}
+	}
+	return false
 }
 
 func (b *builder) include(ci compInfo, o incOpts, plans []supplyPlan, ex exclusions, rec *ev.Rec) Node {
@@ -403,6 +432,45 @@ func (b *builder) include(ci compInfo, o incOpts, plans []supplyPlan, ex exclusi
 	for _, pl := range plans {
 		props := ci.slots[pl.name].props
 		scope := o.scope
+		collide := b.collide && !o.noCollide
+		if pl.scope == "destr" && len(props) == 0 {
+			pl.scope = ""
+		}
+		// Not asserted: what UNSCOPED content (plain children, #a / v-slot:a without a value) sees
+		// under the NAMES of the props its slot binds - the engine exposes them there directly, on
+		// purpose, and the statement only says where props are when a name is declared - nor what
+		// those names are inside an include written in such content (tainted). Everything else the
+		// component binds must be invisible there too.
+		skip := func(name string) bool {
+			return hasProp(o.tainted, name) || pl.scope == "" && hasProp(props, name)
+		}
+		// the names a destructuring pattern lists: the slot's props and, sometimes, a name the slot
+		// does not bind at all. All of them shadow includer variables of the same name - also for a
+		// use of the slot that passes nothing (or nil) for them.
+		var destr []string
+		if pl.scope == "destr" {
+			destr = append([]string(nil), props...)
+			if collide && hasVar(o.coll, "extra") && b.ch.n("destructure-unbound-name", 2) == 0 {
+				destr = append(destr, "extra")
+			}
+		}
+		var kept []sv
+		for _, e := range scope {
+			root := strings.SplitN(e.x, ".", 2)[0]
+			if !hasProp(destr, root) && !skip(root) {
+				kept = append(kept, e)
+			}
+		}
+		scope = kept
+		if collide {
+			var add []sv
+			for _, e := range o.coll {
+				if !hasProp(destr, e.x) && !skip(e.x) {
+					add = append(add, e)
+				}
+			}
+			scope = append(add, scope...)
+		}
 		var sup Supply
 		switch pl.scope {
 		case "var":
@@ -415,11 +483,7 @@ func (b *builder) include(ci compInfo, o incOpts, plans []supplyPlan, ex exclusi
 			}
 			scope = append(add, scope...)
 		case "destr":
-			if len(props) == 0 {
-				pl.scope = ""
-				break
-			}
-			sup.Destr = append([]string(nil), props...)
+			sup.Destr = destr
 			sup.WS = b.ch.n("pattern-ws", patternStyles)
 			var add []sv
 			for _, pn := range props {
@@ -440,6 +504,38 @@ func (b *builder) include(ci compInfo, o incOpts, plans []supplyPlan, ex exclusi
 			kids = append(kids,
 				Node{K: "el", Tag: "i", M: b.id(o.p + "q"), Kids: []Node{{K: "text", T: []Part{{X: read, O: true}}}}},
 				Node{K: "el", Tag: "i", M: b.id(o.p + "u"), Kids: []Node{{K: "text", T: []Part{{X: ctl, O: true}}}}})
+		}
+		if hasProp(sup.Destr, "extra") {
+			// destructured, but the slot binds no such prop: undefined, although the includer has a
+			// variable of that name
+			kids = append(kids,
+				Node{K: "el", Tag: "i", M: b.id(o.p + "x"), Kids: []Node{{K: "text", T: []Part{{X: "extra", O: true}}}}},
+				Node{K: "el", Tag: "i", M: b.id(o.p + "y"), Kids: []Node{{K: "text", T: []Part{{X: "zznone", O: true}}}}})
+		}
+		if collide {
+			// a name that only the component binds (its loop item, a prop the includer has no
+			// variable for, a slot prop that was not asked for under this name) is not a variable of
+			// the includer: it must print like a never-defined name
+			bound := map[string]bool{}
+			for _, e := range scope {
+				bound[strings.SplitN(e.x, ".", 2)[0]] = true
+			}
+			var cand []string
+			for _, x := range []string{fmt.Sprintf("ce%d", ci.idx), ci.rec() + ".name", ci.items(), "item"} {
+				root := strings.SplitN(x, ".", 2)[0]
+				if skip(root) || hasProp(o.boundExtra, root) {
+					continue
+				}
+				if !bound[root] && !hasProp(sup.Destr, root) {
+					cand = append(cand, x)
+				}
+			}
+			if len(cand) > 0 {
+				x := cand[b.ch.n("undefined-read", len(cand))]
+				kids = append(kids,
+					Node{K: "el", Tag: "i", M: b.id(o.p + "c"), Kids: []Node{{K: "text", T: []Part{{X: x, O: true}}}}},
+					Node{K: "el", Tag: "i", M: b.id(o.p + "d"), Kids: []Node{{K: "text", T: []Part{{X: "zznone", O: true}}}}})
+			}
 		}
 		if o.hook != nil {
 			kids = append(kids, o.hook(pl, scope)...)
@@ -568,6 +664,28 @@ func pageScope() []sv {
 		{"plist", "ls", false}, {"prows", "lm", false}, {"prec", "m", false}}
 }
 
+// pageCollisions lists the page variables whose names the components bind themselves: every
+// component's title / num prop, front-matter key and loop index, the slot props n and badge, and
+// extra (a name destructuring patterns sometimes list although no slot binds it). (The loop item
+// ce<i>, the props rec<i> / items<i> and the slot prop item are deliberately NOT page variables:
+// supplied content reads them as undefined names.)
+func pageCollisions() []sv {
+	var out []sv
+	for i := 1; i <= 4; i++ {
+		for _, f := range []string{"title%d", "num%d", "fmk%d", "ci%d"} {
+			out = append(out, sv{fmt.Sprintf(f, i), "s", true})
+		}
+	}
+	return append(out, sv{"n", "s", true}, sv{"badge", "s", true}, sv{"extra", "s", true})
+}
+
+func addCollisionData(d map[string]vals.V) map[string]vals.V {
+	for _, e := range pageCollisions() {
+		d[e.x] = vals.Str("PG" + e.x)
+	}
+	return d
+}
+
 func fixedData(variant int) map[string]vals.V {
 	d := map[string]vals.V{
 		"pa": vals.Str("Aa1"), "pb": vals.Str("Bb2"), "pn": vals.Int(variant % 2 * 7), "pt": vals.Bool(true), "pf": vals.Bool(false),
@@ -578,7 +696,7 @@ func fixedData(variant int) map[string]vals.V {
 		"prec":   withBadge(recV("rc", 4, true), "rcb"),
 		"prec2":  recV("rd", 0, false),
 	}
-	return d
+	return addCollisionData(d)
 }
 
 func genData(t *rapid.T) map[string]vals.V {
@@ -611,7 +729,7 @@ func genData(t *rapid.T) map[string]vals.V {
 	}
 	kinds := []string{"[]any", "[]string"}
 	mkinds := []string{"[]any", "[]map"}
-	return map[string]vals.V{
+	return addCollisionData(map[string]vals.V{
 		"pa": vals.Str(tok("A", "pa")), "pb": vals.Str(tok("B", "pb")),
 		"pn": vals.Int(rapid.IntRange(0, 9).Draw(t, "pn")),
 		"pt": vals.Bool(true), "pf": vals.Bool(false),
@@ -621,5 +739,5 @@ func genData(t *rapid.T) map[string]vals.V {
 		"prows2": recList("q", "prows2", rapid.SampledFrom(mkinds).Draw(t, "prk2")),
 		"prec":   rec("rc", "prec"),
 		"prec2":  rec("rd", "prec2"),
-	}
+	})
 }
